@@ -103,3 +103,80 @@ func zzC20SessionAPICallOrders() {
 	}
 	verifReach("end")
 }
+
+// zzPskEditAfterBuild: shared body of the C01 / C20 harnesses on edits made
+// after BuildHandshakeState to a hello that carries a real pre_shared_key.
+func zzPskEditAfterBuild() {
+	var ids []ClientHelloID
+	for _, p := range zzPredefinedParrots() {
+		if zzSpecHasPSK(p.id) {
+			ids = append(ids, p.id)
+		}
+	}
+	id := ids[verifChoice("parrot", len(ids))]
+	cfg := zzConfig("example.com")
+	cfg.ClientSessionCache = zzEmptyCache{}
+	conn := &zzRecConn{}
+	uc := UClient(conn, cfg, id)
+	label := verifBytes("identity", 2)
+	psk := &UtlsPreSharedKeyExtension{}
+	sess := &SessionState{version: VersionTLS13, cipherSuite: TLS_AES_128_GCM_SHA256, secret: []byte{9}, ticket: label}
+	psk.InitializeByUtls(sess, []byte{1, 2}, verifBytes("binder-key", 2), []PskIdentity{{Label: label, ObfuscatedTicketAge: verifU32("age")}})
+	verifAssert(uc.SetPskExtension(psk) == nil, "set-psk-extension")
+	explicitBuild := verifBool("explicit-build-first")
+	if explicitBuild {
+		verifAssert(uc.BuildHandshakeState() == nil, "first-build-succeeds")
+	}
+	edit := verifChoice("edit", 3)
+	var newRandom []byte
+	var newSuite uint16
+	switch edit {
+	case 1:
+		// documented edits are those made between BuildHandshakeState and Handshake
+		if explicitBuild {
+			newRandom = verifBytes("new-random", 32)
+			verifAssert(uc.SetClientRandom(newRandom) == nil, "set-client-random")
+		}
+	case 2:
+		if explicitBuild {
+			newSuite = 0x00ff
+			uc.HandshakeState.Hello.CipherSuites = append(uc.HandshakeState.Hello.CipherSuites, newSuite)
+		}
+	}
+	zzBinderOut, zzBinderTranscript = nil, nil
+	herr := uc.Handshake()
+	verifAssert(herr != nil, "handshake-stops-at-eof")
+	wire, ok := zzRecordPayload(conn, 0)
+	verifAssert(ok, "client-hello-written")
+	if !ok {
+		return
+	}
+	raw := uc.HandshakeState.Hello.Raw
+	verifAssert(len(raw) == len(wire) && zzBytesEq(raw, wire), "wire-equals-hello-raw")
+	h, okh := zzCheckHelloSyntax(wire, "psk-edit")
+	if !okh {
+		return
+	}
+	if newRandom != nil {
+		verifAssert(zzBytesEq(h.random, newRandom), "edited-random-on-the-wire")
+	}
+	if newSuite != 0 {
+		verifAssert(len(h.suites) > 0 && h.suites[len(h.suites)-1] == newSuite, "edited-suites-on-the-wire")
+	}
+	verifAssert(len(h.exts) > 0 && h.exts[len(h.exts)-1].typ == 41, "pre-shared-key-is-last")
+	b, _ := h.ext(41)
+	verifAssert(len(b) >= 35 && zzBinderOut != nil && zzBytesEq(b[len(b)-32:], zzBinderOut), "wire-binder-is-the-last-computed-one")
+	// the binder must cover the hello that is on the wire, truncated before the binders list (2+1+32 bytes)
+	verifAssert(len(wire) >= 35 && len(zzBinderTranscript) == len(wire)-35 && zzBytesEq(zzBinderTranscript, wire[:len(wire)-35]), "binder-computed-over-the-wire-hello")
+	verifAssert(zzBytesEq(b[2:2+2+len(label)][2:], label), "identity-on-the-wire-as-given")
+	verifReach("end")
+}
+
+//verif:harness C20 psk_binder_covers_final_hello unwind=4000 instrs=600000000 paths=40000 wall=900
+//verif:stub (*math/rand.Rand).Shuffle zzStubShuffle
+//verif:stub (crypto.Hash).New zzStubHashNew
+//verif:stub (*utls.cipherSuiteTLS13).finishedHash zzStubFinishedHash
+//verif:expect end
+//verif:assume transcript hash and the Finished MAC are uninterpreted functions (the binder is a function of the bytes hashed); the peer never answers
+//verif:doc For every parrot with a pre_shared_key extension: a TLS 1.3 session injected through SetPskExtension (UtlsPreSharedKeyExtension, symbolic identity and binder key), optionally an explicit BuildHandshakeState, then no edit / SetClientRandom with 32 symbolic bytes / a suite appended to Hello.CipherSuites, then Handshake: the ClientHello record equals Hello.Raw, shows the edit, carries the identity as given, and its binder is the one computed over exactly the bytes on the wire up to the binders list (so a server holding the PSK verifies it).
+func zzC20PskBinderCoversFinalHello() { zzPskEditAfterBuild() }
